@@ -229,6 +229,33 @@ def _rv_projs(s):
     return out
 
 
+_PASS_THROUGH = ("unwrap_or", "unwrap_or_default", "unwrap_or_else", "copied", "cloned", "clone", "deref", "into", "from", "borrow", "as_ref",
+                 "to_owned", "map_or", "map_or_else", "or", "unwrap", "expect")
+
+
+def _unwrapped_entry(t, depth=0):
+    """the table look-up (`get` / `index`) a term stands for when it is only unwrapped, copied or defaulted on the way; None when
+    the value is recomputed (arithmetic, a mutated variable, anything else)"""
+    if not isinstance(t, tuple) or not t or depth > 12:
+        return None
+    if t[0] == "call":
+        m = parse_callee(t[1])[2]
+        if m in ("get", "index", "get_unchecked"):
+            return t
+        if m in _PASS_THROUGH and t[2]:
+            return _unwrapped_entry(t[2][0], depth + 1)
+        return None
+    if t[0] in ("some", "ref", "deref", "copy") and len(t) >= 2 and isinstance(t[-1], tuple):
+        return _unwrapped_entry(t[-1], depth + 1)
+    if t[0] == "field" and isinstance(t[1], tuple) and t[1] and t[1][0] in ("dc", "some"):
+        return _unwrapped_entry(t[1][1] if t[1][0] == "dc" else t[1], depth + 1)
+    if t[0] == "phi":
+        # `match table.get(i) { Some(x) => *x, None => ZERO }`: every alternative is the entry or a constant
+        subs = [_unwrapped_entry(a, depth + 1) for a in t[1] if not (isinstance(a, tuple) and a and a[0] in ("const", "int"))]
+        return subs[0] if subs and all(s is not None and s == subs[0] for s in subs) else None
+    return None
+
+
 def offsets_prov(R, rep):
     d = R.require("dayloop")
     pre = R.require("prepass")
@@ -248,6 +275,15 @@ def offsets_prov(R, rep):
             off = extras[2][0]
         gets = [x for x in subterms(off) if isinstance(x, tuple) and x and x[0] == "call" and parse_callee(x[1])[2] == "get"] if off is not None else []
         ok = bool(gets) and gets[0][2][1] in (idx, idx2)
+        # …and it is that entry itself: between the table and the lot the value is only unwrapped/copied/defaulted, never
+        # recomputed (a scaled or otherwise adjusted offset no longer adds up with what the apportioning pass distributed)
+        pure = _unwrapped_entry(off) if off is not None else None
+        if ok and pure is None:
+            rep.ob("R3", "add_acquisition:offset-unmodified", False,
+                   f"the cost offset handed to the lot is recomputed after the look-up: {show(off)[:90]}", b.loc(t["sp"]), key="R3:add_acquisition:offset-unmodified")
+        elif ok:
+            rep.ob("R3", "add_acquisition:offset-unmodified", True, "the pre-pass entry reaches the lot unmodified (unwrapped / copied / defaulted only)",
+                   b.loc(t["sp"]), key="R3:add_acquisition:offset-unmodified")
         src = it["conv"](gets[0][2][0]) if gets else None
         from_pre = src is not None and any(isinstance(x, tuple) and x and x[0] == "call" and x[1] == pre.id for x in subterms(src))
         rep.ob("R3", "add_acquisition:offset-at-own-index", ok and from_pre,
